@@ -29,11 +29,26 @@ func (c *Client) wsConnect() error {
 		return err
 	}
 
-	c.signalOnline()
+	resuscitate := c.signalOnline()
 
 	state.wg.Add(2)
 	go c.wsReader(state)
 	go c.wsWriter(state)
+
+	// resend the requests of resuscitated operations
+	for i, m := range resuscitate {
+		select {
+		case c.send <- m:
+			continue
+		case <-state.failSignal:
+		case <-c.shutdownSignal:
+		}
+		// not queued: resuscitate these again after the next reconnect
+		for _, left := range resuscitate[i:] {
+			left.sent.Set()
+		}
+		break
+	}
 
 	// wait for end of connection
 	select {
